@@ -282,7 +282,7 @@ def build_ann(s, env, spelling=None, preds=None):
     if k == "type":
         if len(s) == 1:
             return type
-        return type[build_ann(s[1], env, None, preds)]
+        return type[build_ann(s[1], env, (sp if s[1][0] == "union" else None), preds)]
     if k == "gen":
         return build_gen(s[1], s[2], env)
     raise ValueError(s)
